@@ -382,3 +382,23 @@ def _(v):
     seq = ["H2O", "Na+", "H2O", "Na2CO3..7H2O(s)", "Na+", "e-", "H2O"]
     want = {"H2O": {1: 2, 8: 1}, "Na+": {11: 1, 0: 1}, "Na2CO3..7H2O(s)": {11: 2, 6: 1, 8: 10, 1: 14}, "e-": {0: -1}}
     v.prove("repeated_and_interleaved_formulas", all(ftc(f) == want[f] for f in seq))
+
+
+@harness("C01", "very_long_subscripts", functions=["chempy.util.parsing:_get_formula_parser (count parse action)", "chempy.util.parsing:_parse_stoich", "chempy.util.parsing:formula_to_composition"], kind="data")
+def _(v):
+    """'unbounded length': integer subscripts and group multipliers are read exactly however many digits they have (no round trip through a
+    double), decimals stay decimals"""
+    from chempy.util.parsing import formula_to_composition as ftc
+    n = 2 ** 53 + 1
+    big = int("9" * 400)
+    cases = [("H%d" % n, {1: n}), ("(H)%d" % n, {1: n}), ("H%dO%d" % (n, n + 2), {1: n, 8: n + 2}), ("(H2O)%d" % n, {1: 2 * n, 8: n}), ("H" + "9" * 400, {1: big}),
+             ("Na2CO3..%dH2O" % n, {11: 2, 6: 1, 8: 3 + n, 1: 2 * n}), ("Fe0.5O", {26: 0.5, 8: 1}), ("H02", {1: 2})]
+    bad = []
+    for f, want in cases:
+        try:
+            got = ftc(f)
+        except Exception as ex:
+            got = repr(ex)
+        if got != want or (isinstance(got, dict) and any(type(x) is not type(want[k]) for k, x in got.items())):
+            bad.append((f[:30], str(got)[:80]))
+    v.prove("integer_counts_exact_at_any_length", not bad, detail=repr(bad))
